@@ -21,6 +21,34 @@ from sim.world import World, reset_library
 DEADLINE = None  # set by the worker: enumeration of the current program ends there (what was injected stays checked)
 
 
+def backend_bound(pre, r):
+    """True when the program's own step would make the library build a 3-operand einsum of rank >= 8
+    in REAL dtype (a product space of four or more members, none of them complex, at matrix level,
+    or about to be taken there by a channel / POVM): XLA's CPU compiler needs minutes for it
+    (DESIGN 15.2). The generator keeps fault-free programs clear of that case; in the enumeration a
+    rejected call may have expanded a real-valued scenario prefix (GHZ and the like) to matrix
+    level first. A bound on what is enumerated, never a verdict."""
+    on = r.get("on") or ([r["sub"]] if r.get("sub") else [])
+    if r.get("do") not in ("op", "kraus", "povm") or not on:
+        return False
+    blocks = []
+    for n in on:
+        try:
+            b = pre.block_of(n)
+        except Exception:
+            b = None
+        if b is not None and not any(b is x for x in blocks):
+            blocks.append(b)
+    members = sum(len(b.members) for b in blocks)
+    if members <= 3:
+        return False
+    for b in blocks:
+        dt = getattr(b.arr, "dtype", None)
+        if dt is not None and dt.kind == "c":
+            return False
+    return r["do"] in ("kraus", "povm") or any(b.form == "matrix" or b.level == alpha.MATRIX for b in blocks)
+
+
 def candidates(world, pre):
     out = []
     subs = [n for n in world.sub_names()]
@@ -237,6 +265,9 @@ def _inject_run(cfg, recipes, base, rr_out, limit_per_pos=80, only=None):
             executed.append(f)
             pre = post
         # the program's own step
+        if injections and backend_bound(pre, r):
+            rr_out.probes["enum_stopped_at_backend_bound"] = rr_out.probes.get("enum_stopped_at_backend_bound", 0) + 1
+            return viols, injections
         ctx["sid"], ctx["nondeg"] = r["sid"], 0
         seams.take_draws()
         res = actions.execute(world, pre, dict(r))
